@@ -231,6 +231,19 @@ func registerNd(e *Engine) {
 		}
 		return r
 	}
+	I[p+"SharedMutable"] = func(x *Exec, caller *frame, fn *ssa.Function, args []Value) Value {
+		a := map[interface{}]bool{}
+		x.collectMutable(args[0], a, map[interface{}]bool{})
+		b := map[interface{}]bool{}
+		x.collectMutable(args[1], b, map[interface{}]bool{})
+		n := 0
+		for k := range b {
+			if a[k] {
+				n++
+			}
+		}
+		return x.intTerm(n)
+	}
 	I[p+"ExportPC"] = func(x *Exec, caller *frame, fn *ssa.Function, args []Value) Value {
 		name := x.concreteStr(args[0], "export name")
 		x.res.Exports = append(x.res.Exports, PathExport{Name: name, PC: append([]*Term{}, x.pc...)})
@@ -243,5 +256,56 @@ func registerNd(e *Engine) {
 	I[p+"AllocBound"] = func(x *Exec, caller *frame, fn *ssa.Function, args []Value) Value {
 		x.h.AllocBound = x.concreteInt(args[0], "AllocBound")
 		return nil
+	}
+}
+
+// collectMutable gathers the identities of all mutable locations (pointer targets, slice elements, maps) reachable
+// from v. Zero-size pointees are skipped (sharing them is unobservable; natively they may all have one address).
+func (x *Exec) collectMutable(v Value, out map[interface{}]bool, seen map[interface{}]bool) {
+	switch t := v.(type) {
+	case *Cell:
+		if t == nil || seen[t] {
+			return
+		}
+		seen[t] = true
+		if st, ok := t.V.(Struct); !(ok && len(st) == 0) {
+			out[t] = true
+		}
+		x.collectMutable(t.V, out, seen)
+	case Slice:
+		for i := range t.C {
+			c := &t.C[i]
+			if seen[c] {
+				continue
+			}
+			seen[c] = true
+			out[c] = true
+			x.collectMutable(c.V, out, seen)
+		}
+	case *Map:
+		if t == nil || seen[t] {
+			return
+		}
+		seen[t] = true
+		out[t] = true
+		for _, e := range t.E {
+			x.collectMutable(e.V, out, seen)
+		}
+	case Struct:
+		for i := range t {
+			x.collectMutable(t[i].V, out, seen)
+		}
+	case Array:
+		for i := range t {
+			x.collectMutable(t[i].V, out, seen)
+		}
+	case Iface:
+		if t.T != nil {
+			x.collectMutable(t.V, out, seen)
+		}
+	case Tuple:
+		for _, e := range t {
+			x.collectMutable(e, out, seen)
+		}
 	}
 }
